@@ -94,7 +94,7 @@ func (d *dt1) totalSortD(call ssa.CallInstruction, depth int) (ssa.Value, string
 		}
 		for _, lf := range funcValuesOf(cc.Args[1], 0) {
 			_, tie := d.c.comparatorShape(lf)
-			if tie || d.elementLess(lf) || d.elementCompare(lf) {
+			if tie || d.elementLess(lf) || d.elementCompare(lf) || d.positionOrder(lf) {
 				return arg, "total"
 			}
 		}
@@ -121,6 +121,108 @@ func (d *dt1) totalSortD(call ssa.CallInstruction, depth int) (ssa.Value, string
 	return nil, ""
 }
 
+// positionOrder: the comparator is `pos[s[i]] < pos[s[j]]` where pos maps each key to the index at which a slice loop
+// first met it (pos[k] = i inside `for i, x := range xs`, the only insertion into pos): distinct keys carry distinct
+// positions, so the order is total on them.
+func (d *dt1) positionOrder(lf *ssa.Function) bool {
+	rets := returnsOf(lf)
+	if len(rets) != 1 || len(rets[0].Results) != 1 || len(lf.Params) != 2 {
+		return false
+	}
+	b, ok := strip(rets[0].Results[0]).(*ssa.BinOp)
+	if !ok || b.Op != token.LSS {
+		return false
+	}
+	lx, ok1 := strip(b.X).(*ssa.Lookup)
+	ly, ok2 := strip(b.Y).(*ssa.Lookup)
+	if !ok1 || !ok2 || lx.CommaOk || ly.CommaOk || resolve(lx.X) != resolve(ly.X) {
+		return false
+	}
+	if !derivesFrom(lx.Index, lf.Params[0]) || !derivesFrom(ly.Index, lf.Params[1]) {
+		return false
+	}
+	// every origin of the map: a fresh map with a single insertion site whose value is a slice-range index
+	var origins []*ssa.MakeMap
+	seen := map[ssa.Value]bool{}
+	var find func(v ssa.Value, depth int) bool
+	find = func(v ssa.Value, depth int) bool {
+		v = resolve(v)
+		if seen[v] {
+			return true
+		}
+		seen[v] = true
+		if depth > 6 {
+			return false
+		}
+		switch x := v.(type) {
+		case *ssa.MakeMap:
+			origins = append(origins, x)
+			return true
+		case *ssa.FreeVar:
+			if bnd := bindingOf(x); bnd != nil {
+				return find(bnd, depth+1)
+			}
+		case *ssa.Parameter:
+			args := d.c.argValues(x.Parent(), paramIndex(x))
+			if len(args) == 0 {
+				return false
+			}
+			for _, a := range args {
+				if !find(a, depth+1) {
+					return false
+				}
+			}
+			return true
+		case *ssa.Phi:
+			for _, e := range x.Edges {
+				if !find(e, depth+1) {
+					return false
+				}
+			}
+			return true
+		}
+		return false
+	}
+	if !find(lx.X, 0) || len(origins) == 0 {
+		return false
+	}
+	for _, mm := range origins {
+		ups := d.c.mapUpdatesOf(mm)
+		if len(ups) != 1 {
+			return false
+		}
+		// the index of a slice loop: go/ssa lowers `for i := range xs` to i = phi(-1, i+1) (no Range instruction)
+		ph, ok := strip(ups[0].Value).(*ssa.BinOp)
+		var ind *ssa.Phi
+		if ok && ph.Op == token.ADD {
+			if p0, isPhi := ph.X.(*ssa.Phi); isPhi {
+				if k, isK := constInt(ph.Y); isK && k == 1 {
+					ind = p0
+				}
+			}
+		} else if p0, isPhi := strip(ups[0].Value).(*ssa.Phi); isPhi {
+			ind = p0
+		}
+		if ind == nil || len(ind.Edges) < 2 {
+			return false
+		}
+		step := false
+		for _, e := range ind.Edges {
+			if bo, isB := e.(*ssa.BinOp); isB && bo.Op == token.ADD && bo.X == ssa.Value(ind) {
+				if k, isK := constInt(bo.Y); isK && k == 1 {
+					step = true
+				}
+			} else if _, isK := constInt(e); !isK {
+				return false
+			}
+		}
+		if !step {
+			return false
+		}
+	}
+	return true
+}
+
 // elementCompare: a three-way comparator that is cmp.Compare / strings.Compare of the two elements themselves.
 func (d *dt1) elementCompare(lf *ssa.Function) bool {
 	rets := returnsOf(lf)
@@ -142,7 +244,24 @@ func (d *dt1) elementLess(lf *ssa.Function) bool {
 			continue
 		}
 		if b, ok := r.Results[0].(*ssa.BinOp); ok && b.Op == token.LSS {
-			if isBasic(b.X.Type()) && len(returnsOf(lf)) == 1 {
+			// the operands are the two elements themselves (s[i], s[j]; or a, b for slices.SortFunc-style helpers), not
+			// something computed from them (len(s[i]) < len(s[j]) ties on equal lengths)
+			isElem := func(v ssa.Value, prm *ssa.Parameter) bool {
+				v = strip(v)
+				if v == ssa.Value(prm) {
+					return true
+				}
+				if u, ok := v.(*ssa.UnOp); ok && u.Op == token.MUL {
+					if ia, ok := u.X.(*ssa.IndexAddr); ok && strip(ia.Index) == ssa.Value(prm) {
+						return true
+					}
+				}
+				if ix, ok := v.(*ssa.Index); ok && strip(ix.Index) == ssa.Value(prm) {
+					return true
+				}
+				return false
+			}
+			if isBasic(b.X.Type()) && len(returnsOf(lf)) == 1 && len(lf.Params) == 2 && isElem(b.X, lf.Params[0]) && isElem(b.Y, lf.Params[1]) {
 				return true
 			}
 		}
@@ -832,8 +951,32 @@ func ruleDT1(c *Ctx) {
 			var ts *taintSummary
 			if al, ok := col.(*ssa.Alloc); ok {
 				ts = &taintSummary{}
+				// the comparator of a total sort of this very slice reads it while it is being put in order: not a use
+				comparators := map[*ssa.Function]bool{}
 				for _, ld := range cellLoads(al) {
-					if loopBlocks(hdr)[ld.Block()] {
+					var users []ssa.Instruction
+					if ld.Referrers() != nil {
+						for _, r := range *ld.Referrers() {
+							users = append(users, r)
+							if mi, ok := r.(*ssa.MakeInterface); ok && mi.Referrers() != nil {
+								users = append(users, *mi.Referrers()...)
+							}
+						}
+					}
+					for _, u := range users {
+						call, ok := u.(ssa.CallInstruction)
+						if !ok || len(call.Common().Args) < 2 {
+							continue
+						}
+						if sv, kind := d.totalSort(call); sv != nil && kind == "total" && resolve(sv) == resolve(ld) {
+							for _, lf := range funcValuesOf(call.Common().Args[1], 0) {
+								comparators[lf] = true
+							}
+						}
+					}
+				}
+				for _, ld := range cellLoads(al) {
+					if loopBlocks(hdr)[ld.Block()] || comparators[ld.Parent()] {
 						continue
 					}
 					sub := d.taintedUses(ld.Parent(), ld, label, 0)
